@@ -3667,7 +3667,8 @@ def sptenrand(
     shape = parse_shape(shape)
     if isinstance(density, float):
         # TODO this should be an int
-        valid_nonzeros = float(prod(shape) * density)
+        # At least one nonzero: a value below one would be read as a density again
+        valid_nonzeros = max(1.0, float(prod(shape) * density))
     elif isinstance(nonzeros, (int, float)):
         valid_nonzeros = nonzeros
     else:  # pragma: no cover
